@@ -219,6 +219,40 @@ def check_timeouts(chk, quick):
                     if (v["timers"] and not v["orphans"]) or v["pending"] or v["cancellers"]:
                         chk.report("impl-violates-law", case, impl={"volatile": v}, law="a cancelled or superseded timer never fires: none is left armed at rest")
                 s.close()
+    # every attempt of a retried Task gets the whole TimeoutSeconds, counted from the instant the attempt is actually made
+    # (the retry's back-off delay, IntervalSeconds x BackoffRate^k, has gone by first)
+    for tmo in (4, 10):
+        for interval, backoff in ((1, 2.0), (2, 2.0), (2, 1.5), (3, 1.0)):
+            for k in (1, 2, 3):
+                for rel, last in (("before", tmo * 1000 - 1), ("after", tmo * 1000 + 1)):
+                    t = T("f", TimeoutSeconds=tmo)
+                    t["Retry"] = [{"ErrorEquals": ["States.ALL"], "IntervalSeconds": interval, "BackoffRate": backoff, "MaxAttempts": k}]
+                    m = {"StartAt": "T", "States": {"T": t}}
+                    plan = [("err", "Boom", "m", 10)] * k + [("ok", {"r": 1}, last)]
+                    s, ea = run_task(m, None, plan=plan)
+                    fv = explore.final_view(s, ea)
+                    tt = term_time(s, ea)
+                    reqs = [q["t"] for q in s.rpc_requests if q["queue"] == "f"]
+                    case = {"kind": "retried-task-timeout", "TimeoutSeconds": tmo, "IntervalSeconds": interval, "BackoffRate": backoff,
+                            "failures": k, "last_reply_delay_ms": last, "machine": m}
+                    chk.count(cj(case), True)
+                    chk.dist("retried_task_timeout.%s.k%d" % (rel, k))
+                    if len(reqs) != k + 1:
+                        exp = {"requests": k + 1}
+                        got = {"requests": len(reqs), "at": reqs}
+                    elif rel == "before":
+                        exp = {"status": "SUCCEEDED", "error": None, "t": reqs[-1] + last}
+                        got = {"status": fv.get("status"), "error": fv.get("error"), "t": tt}
+                    else:
+                        exp = {"status": "FAILED", "error": "States.Timeout", "t": reqs[-1] + tmo * 1000}
+                        got = {"status": fv.get("status"), "error": fv.get("error"), "t": tt}
+                    if s.errors:
+                        chk.report("impl-violates-law", case, impl={"errors": s.errors[:1]}, law="no exception escapes a handler")
+                    elif got != exp:
+                        chk.report("impl-violates-law", dict(case, request_instants_ms=reqs), impl=got, model=exp,
+                                   law="a retried Task attempt fails with States.Timeout exactly TimeoutSeconds after that attempt was "
+                                       "made, never before: a reply just inside the window completes it")
+                    s.close()
     # execution TimeoutSeconds: not interceptable
     for etmo in (2, 4):
         for body in ("wait", "task"):
